@@ -144,6 +144,8 @@ def run_variant(v: dict) -> dict:
         ck = Checker(ctx, v["prop"], "quick")
         mod = importlib.import_module(f"sa.props.{v['prop'].lower()}")
         try:
+            from ..check import _guard_unmodelled_decorators
+            _guard_unmodelled_decorators(ck)
             mod.run(ck)
             vio = unlisted_violations(ck)      # a listed known finding of the tree is not what the variant is about
             if vio:
